@@ -21,6 +21,10 @@ def instances(tier):
               continue
           L.append(Inst("codec-accessors-%s-%s" % (an, f), "C10/fmt.c", {"FMT": "PIXMAN_" + f, "ACCESSORS": acc}, link=["pixman-access-accessors.c"], unwind=64, checks=ck,
                         desc={"what": "same obligations with read and/or write callbacks (PIXMAN_FB_ACCESSORS recompilation): goes through the callbacks and behaves like direct addressing"}))
+    for f in ("c8", "g8", "c4", "g4", "g1"):
+      for vv in (("0xffffffffu",) if tier == "quick" else ("0xffffffffu", "0x80ff8040u", "0x00000000u")):
+        L.append(Inst("indexed-%s-v%s" % (f, vv[2:10]), "C10/indexed.c", {"FMT": "PIXMAN_" + f, "VVAL": vv}, link=[], unwind=64, checks=ck, timeout=600,
+                      desc={"what": "palette format: read == rgba[raw]; store writes ent[15-bit index of the colour] into the addressed pixel's bits only; palette entries symbolic"}))
     for f, nb in (QUICK_FLT if tier == "quick" else [(f, 8) for f in RGB] + QUICK_FLT):
         L.append(Inst("float-%s-n%d" % (f, nb), "C10/flt.c", {"FMT": "PIXMAN_" + f, "NBITS": nb}, link=[], unwind=6, timeout=600,
                       desc={"what": "pixman_expand_to_float: 0 -> 0.0, max -> 1.0, strictly monotone, absent alpha 1.0 / colour 0.0; contract(expand) identity; float_to_unorm clamps and is monotone"}))
@@ -34,8 +38,8 @@ TEXT = ("Bounded model checking of the real per-format readers and writers (pixm
         "other pixel and the row padding unchanged) and keeps the most significant bits; write-back of a read value is the identity; the "
         "accessor recompilation behaves identically; float widening/narrowing maps 0->0.0, max->1.0, is strictly monotone and round-trips.")
 NOTE = ("Trusted: the oracle decoder in harness/C10/fmt.c and oracle/arith.h (o_widen8/o_narrow8); little-endian bit order convention. "
-        "Indexed (palette), YUV, sRGB and the wide (10-bit, float) storage formats are outside this check's oracle.")
+        "Palette formats c8/g8/c4/g4/g1 have their own instances (two palette entries symbolic); YUV, sRGB and the wide (10-bit, float) storage formats are outside this check's oracle.")
 RULE = "C10 instance = format x (direct | accessors | float path)."
 BOUNDS = {"row": "3 words, up to 6 pixels, x symbolic", "values": "all raw memory contents and all 32-bit store values symbolic"}
-OUTSIDE = ["indexed formats (c4, c8, g1, g4, g8, x4c4, x4g4) palettes", "yuy2 / yv12 / a8r8g8b8_sRGB colour conversion", "a2r10g10b10-family and rgb(a)_float storage formats", "16-bit float_to_unorm depth (unused by any format here)"]
+OUTSIDE = ["x4c4 / x4g4 (palette formats stored in bytes)", "yuy2 / yv12 / a8r8g8b8_sRGB colour conversion", "a2r10g10b10-family and rgb(a)_float storage formats", "16-bit float_to_unorm depth (unused by any format here)"]
 ASSUMPTIONS = ["little-endian host bit order (this build)"]
